@@ -191,7 +191,6 @@ class CardanoByronLegacy:
         """
         return self.__DeriveKey(first_idx, second_idx).PublicKey()
 
-    @lru_cache()
     def GetAddress(self,
                    first_idx: Union[int, Bip32KeyIndex],
                    second_idx: Union[int, Bip32KeyIndex]) -> str:
@@ -219,7 +218,6 @@ class CardanoByronLegacy:
             hd_path_key=self.HdPathKey()
         )
 
-    @lru_cache()
     def __DeriveKey(self,
                     first_idx: Union[int, Bip32KeyIndex],
                     second_idx: Union[int, Bip32KeyIndex]) -> Bip32Base:
